@@ -209,6 +209,23 @@ func TestC14_Grouping(t *testing.T) {
 			}
 		} else {
 			prog = &ast.Node{K: ast.Group, C: append([]*ast.Node{seq}, kv...)}
+			// the grouping in parentheses is an operand like any other: grouped,
+			// filtered or mapped again
+			nkeys := func() *ast.Node { return ast.CallN("count", ast.CallN("keys", ast.VarN(""))) }
+			rg := rapid.IntRange(0, 15).Draw(rt, "regroup")
+			if rg <= 3 {
+				plain = "" // the direct partition describes the inner grouping only
+			}
+			switch rg {
+			case 0:
+				prog = &ast.Node{K: ast.Group, C: []*ast.Node{ast.BlockN(prog), ast.StrN("groups"), nkeys(), ast.StrN("types"), ast.CallN("type", ast.VarN(""))}}
+			case 1:
+				prog = ast.PredN(ast.BlockN(prog), ast.BinN(">=", nkeys(), ast.NumN(1)))
+			case 2:
+				prog = ast.PathN(ast.BlockN(prog), ast.N(ast.Obj, ast.StrN("n"), nkeys()))
+			case 3:
+				prog = &ast.Node{K: ast.Group, C: []*ast.Node{ast.BlockN(ast.BlockN(prog)), ast.CallN("string", nkeys()), ast.BoolN(true)}}
+			}
 		}
 		c := mkDiff(prog, doc, true)
 		p, r, m, skip := diffRun(c)
@@ -390,6 +407,17 @@ func objFnCheck(o, o2 val.Value) (string, int) {
 	}
 	if !ok || !multisetEqual(gotS, wantS) {
 		return fmt.Sprintf("$spread(o) is %v, want one single-member object per member %v", gotS, wantS), evals
+	}
+	// ... and over an array of objects: the spreads of its items one after the
+	// other; an empty object among them contributes nothing
+	wantSA := append([]val.Value{}, wantS...)
+	for _, k := range o2.Keys() {
+		wantSA = append(wantSA, val.O(map[string]val.Value{k: o2.O[k]}))
+	}
+	for _, e := range []string{`$spread([o, {}, p])`, `$spread([{}, o, p, {}])`, `$spread(arr)`, `$spread([o, p][$count($keys($)) >= 0])`} {
+		if gotSA, ok := asList(run(e)); !ok || !multisetEqual(gotSA, wantSA) {
+			return fmt.Sprintf("%s is %v, want the single-member objects of o and p: %v", e, gotSA, wantSA), evals
+		}
 	}
 	// $merge: right-biased union
 	wantM := map[string]val.Value{}
